@@ -134,14 +134,25 @@ def check_single(ld, kind, n, b, rngkind, seed, res, path='direct'):
             res.violation('items-raised', case, exc_sig(e), sig={'shuffle': kind})
 
 
-def check_sampling(ld, n, size, rngkind, seed, res):
-    case = {'op': 'random_choice', 'n': n, 'size': size, 'rng': rngkind, 'seed': seed}
-    res.case(('sample', n, size, rngkind, seed), nontrivial=n >= 2 and size >= 2)
+# ways of saying "without replacement" (the parameter is documented as a bool)
+NO_REPLACE = {'False': False, 'default': None, 'np.False_': np.False_, '0': 0,
+              'np.bool_(0)': np.bool_(0), 'positional': 'positional'}
+
+
+def check_sampling(ld, n, size, rngkind, seed, res, how='False'):
+    case = {'op': 'random_choice', 'n': n, 'size': size, 'rng': rngkind, 'seed': seed,
+            'replace_given_as': how}
+    res.case(('sample', n, size, rngkind, seed, how), nontrivial=n >= 2 and size >= 2)
     ds = ld.new(list(range(n)))
     rng = make_rng(rngkind, seed)
     kw = {} if rng is None else {'rng_state': rng}
     try:
-        out = list(ds.random_choice(size, replace=False, **kw))
+        if how == 'default':
+            out = list(ds.random_choice(size, **kw))
+        elif how == 'positional':
+            out = list(ds.random_choice(size, False, *([rng] if rng is not None else [])))
+        else:
+            out = list(ds.random_choice(size, replace=NO_REPLACE[how], **kw))
     except BaseException as e:
         if size > n:
             res.count('oversampling_refused')
@@ -378,7 +389,8 @@ def run_shard(spec, res):
                         for path in COPYING:
                             check_single(ld, kind, n, b, spec['rng'], base + s, res, path)
         # sizes around 2^8 and 2^16 (index arrays of another width)
-        for n in (255, 256, 257, 1000) + ((65537,) if spec['rng'] == 'RandomState' else ()):
+        for n in (127, 128, 129, 255, 256, 257, 1000) + \
+                ((32769, 65537) if spec['rng'] == 'RandomState' else ()):
             for b in ((3, 100, n + 1) if kind == 'local' else (None,)):
                 check_single(ld, kind, n, b, spec['rng'], base + n, res)
                 res.count('large_shuffles_checked')
@@ -391,6 +403,8 @@ def run_shard(spec, res):
                 for size in range(0, n + 2):
                     for s in range(max(3, spec['seeds'] // 4)):
                         check_sampling(ld, n, size, rk, base + s, res)
+                    for how in NO_REPLACE:
+                        check_sampling(ld, n, size, rk, base + 77, res, how)
         for n in range(0, spec['nmax'] + 1):
             for r in (1, 2, 3):
                 for s in range(spec['seeds']):
@@ -482,7 +496,8 @@ def replay(case, res):
         check_compose(ld, case['compose'], case['shuffle'], case['n'], case['b'],
                       case['rng'], case['seed'], res)
     elif case.get('op') == 'random_choice':
-        check_sampling(ld, case['n'], case['size'], case['rng'], case['seed'], res)
+        check_sampling(ld, case['n'], case['size'], case['rng'], case['seed'], res,
+                       case.get('replace_given_as', 'False'))
     elif case.get('op') == 'tile':
         check_tile(ld, case['n'], case['reps'], case['seed'], res)
     else:
